@@ -646,6 +646,13 @@ func (x *Exec) strEq(a, b StrV) *Term {
 	}
 	ca, cb := x.strContent(a.Ref), x.strContent(b.Ref)
 	e := c.App("str_eq", SBool, ca, a.Off, a.Len, cb, b.Off, b.Len)
+	if e.bound {
+		// under a quantifier: the facts about str_eq cannot be stated as top-level hypotheses; build
+		// them into the term (equivalent to e under those facts)
+		same := c.And(c.Eq(ca, cb), c.Eq(a.Off, b.Off), c.Eq(a.Len, b.Len))
+		empty := c.And(c.Eq(a.Len, c.Int(0)), c.Eq(b.Len, c.Int(0)))
+		return c.Or(same, empty, c.And(e, c.Eq(a.Len, b.Len)))
+	}
 	x.hyps = append(x.hyps, c.Implies(e, c.Eq(a.Len, b.Len)))
 	x.hyps = append(x.hyps, c.Implies(c.And(c.Eq(ca, cb), c.Eq(a.Off, b.Off), c.Eq(a.Len, b.Len)), e))
 	x.hyps = append(x.hyps, c.Implies(c.And(c.Eq(a.Len, c.Int(0)), c.Eq(b.Len, c.Int(0))), e))
